@@ -64,7 +64,9 @@ def gen_descs(g, tier):
     if not q:
         for _ in range(150):
             kind = g.choice(LINKS); Dy = g.randint(1, 2)
-            out.append(gen_case(g, kind, g.randint(1, 2), Dy, g.randint(1, 2), Dy + g.randint(0, 1), g.choice(["cond_x", "bound"]), N=g.randint(1, 2)))
+            Da = Dy + g.randint(0, 1)
+            Dk = min(g.randint(1, 2), Da)       # the constructor accepts at most Da noise units
+            out.append(gen_case(g, kind, g.randint(1, 2), Dy, Dk, Da, g.choice(["cond_x", "bound"]), N=g.randint(1, 2)))
     return [C.J(d) for d in out]
 
 
